@@ -52,12 +52,16 @@ pub fn until_next_unindented(input: &str, at_least_until: usize, fallback_len: u
         prev_was_newline = ch == '\n';
     }
 
-    // No match found, use fallback
-    let mut fallback_len = input.len().min(fallback_len);
+    // No match found, use fallback: a fixed length, but never less than the line of the error
+    let error_line_end = input[at_least_until..]
+        .find('\n')
+        .map_or(input.len(), |i| at_least_until + i);
+    let mut fallback_len = input.len().min(fallback_len.max(error_line_end));
     while !input.is_char_boundary(fallback_len) {
         fallback_len -= 1;
     }
-    input[..fallback_len].trim()
+    // (a line break at the start belongs to the excerpt: the rows are numbered from it)
+    input[..fallback_len].trim_end()
 }
 
 pub fn hex_to_bools(c: char) -> [bool; 4] {
